@@ -61,6 +61,21 @@ WideLits == {
 
 ASSUME \A l \in WideLits : IsIntLit(l) /\ ~InRange(l) /\ ~NumAdmissible(l)
 
+\* exponent spellings: e / E, sign + / - / none, exponent with a leading zero or zero, after a mantissa ending in 0
+ExpLits == {
+  Lit(<<"1","E","-","0","5">>), Lit(<<"1","E","+","0","5">>), Lit(<<"1","e","+","0","5">>), Lit(<<"1","e","0","5">>),
+  Lit(<<"1","E","0","5">>), Lit(<<"1","e","-","0">>), Lit(<<"1","E","-","0">>), Lit(<<"1","E","+","0">>),
+  Lit(<<"-","0","e","-","0">>), Lit(<<"-","0","E","-","0","5">>), Lit(<<"1",".","5","E","-","0","5">>),
+  Lit(<<"1","0","e","-","0","1">>), Lit(<<"-","1","E","-","0","5">>) }
+\* in-range and out-of-range integers next to the 16-digit boundary: 2^53-2, -(2^53-2), 10^15, 10^16-1, 10^16
+EdgeLits == {
+  Dec(<<9,0,0,7,1,9,9,2,5,4,7,4,0,9,9,0>>), NegDec(<<9,0,0,7,1,9,9,2,5,4,7,4,0,9,9,0>>),
+  Dec(<<1,0,0,0,0,0,0,0,0,0,0,0,0,0,0,0>>), Dec(<<9,9,9,9,9,9,9,9,9,9,9,9,9,9,9,9>>),
+  Dec(<<1,0,0,0,0,0,0,0,0,0,0,0,0,0,0,0,0>>) }
+ASSUME /\ \A l \in ExpLits : IsNumLit(l) /\ ~IsIntLit(l)
+       /\ {l \in EdgeLits : NumAdmissible(l)} = {Dec(<<9,0,0,7,1,9,9,2,5,4,7,4,0,9,9,0>>), NegDec(<<9,0,0,7,1,9,9,2,5,4,7,4,0,9,9,0>>),
+                                                Dec(<<1,0,0,0,0,0,0,0,0,0,0,0,0,0,0,0>>)}
+
 MaxSafeLit == <<"9","0","0","7","1","9","9","2","5","4","7","4","0","9","9","1">>
 OverLit    == <<"9","0","0","7","1","9","9","2","5","4","7","4","0","9","9","2">>
 Lits == {
@@ -74,7 +89,7 @@ Lits == {
   Lit(<<"1","e","-","0","5">>), Lit(<<"-","1","e","-","0","5">>), Lit(<<"0","e","1">>), Lit(<<"0","E","0">>),
   Lit(<<"1",".","5","e","3","0","0">>), Lit(<<"1","e","4","0","0">>), Lit(<<"0",".","1","e","1">>),
   Lit(<<"1",".","0","E","+","2">>), Lit(<<"1","0",".","0","1">>), Lit(<<"-","2",".","5","e","-","0">>),
-  Lit(<<"2","0">>), Lit(<<"-","0",".","0","5">>) } \cup WideLits
+  Lit(<<"2","0">>), Lit(<<"-","0",".","0","5">>) } \cup WideLits \cup ExpLits \cup EdgeLits
 One == VNum(<<49>>)
 Two == VNum(<<50>>)
 Three == VNum(<<51>>)
@@ -106,17 +121,27 @@ NumPlace(p, n) ==
 NumPlaces == {"top", "elem", "first", "last", "mval", "mfirst", "arrarr", "objobj", "arrobj", "objarr"}
 FamNumA == {Sc("num", NumPlace(p, n), 0, 1, FALSE, FALSE) : p \in NumPlaces, n \in Lits}
 FamNumB == {Sc("num", NumPlace(p, n), 1, 1, FALSE, FALSE) : p \in {"top", "elem", "mval"}, n \in Lits}
-FamNumC == {Sc("num", VArr(<<VNum(n), VNum(m)>>), 0, 2, FALSE, FALSE) : n \in Lits, m \in Lits}
+\* two numbers in one text (an admissible next to an inadmissible one, both orders): every literal with every
+\* literal in the thorough tier, every literal with six partners in the quick tier
+PairPartners == {Zero, <<49>>, Lit(<<"-","0",".","5">>), Lit(<<"1","E","2">>), Lit(OverLit), Lit(<<"1","e","-","0","5">>)}
+FamNumC == {Sc("num", VArr(<<VNum(n), VNum(m)>>), 0, 2, FALSE, FALSE) :
+               n \in Lits, m \in (IF Quick THEN PairPartners ELSE Lits)}
+FamNumD == IF Quick THEN {Sc("num", VArr(<<VNum(m), VNum(n)>>), 0, 2, FALSE, FALSE) : n \in Lits, m \in PairPartners}
+           ELSE {}
 
 \* --- family keys: objects whose keys need escaping / sort differently in UTF-16 ------------
 Keys == { <<>>, Ka, Kb, <<97, 97>>, <<97, 98>>, <<97, 34>>, <<34>>, <<92>>, <<0>>, <<10>>, <<31>>, <<47>>, <<127>>,
-          <<233>>, <<8232>>, <<64257>>, <<128512>>, <<97, 128512>>, <<64257, 97>>, <<128512, 97>>, <<233, 97>>, <<97, 0>> }
+          <<233>>, <<8232>>, <<64257>>, <<128512>>, <<97, 128512>>, <<64257, 97>>, <<128512, 97>>, <<233, 97>>, <<97, 0>>,
+          \* keys whose order changes if the escaped text or the closing quote takes part in the comparison:
+          \* "a " and "a!" (below the quote) after their prefix "a", # [ ] (around the quote and the backslash), A
+          <<97, 32>>, <<97, 33>>, <<32>>, <<35>>, <<91>>, <<93>>, <<65>> }
 KeyPairs(S) == {p \in S \X S : LexLess(p[1], p[2])}
 KeyTriples(S) == {p \in S \X S \X S : LexLess(p[1], p[2]) /\ LexLess(p[2], p[3])}
 FamKeysA == {Sc("keys", VObj(<<Mem(p[1], One), Mem(p[2], Two)>>), 0, 1, TRUE, FALSE) : p \in KeyPairs(Keys)}
 FamKeysB == {Sc("keys", VObj(<<Mem(p[1], One), Mem(p[2], Two)>>), 0, All, TRUE, FALSE) : p \in KeyPairs(StrsOfLen(1))}
 \* triples: all keys in the thorough tier, the keys that need escapes or order differently in UTF-16 in the quick tier
-KeysQuick3 == { <<>>, Ka, <<97, 34>>, <<34>>, <<92>>, <<0>>, <<10>>, <<233>>, <<64257>>, <<128512>>, <<97, 128512>>, <<64257, 97>> }
+KeysQuick3 == { <<>>, Ka, <<97, 34>>, <<34>>, <<92>>, <<0>>, <<10>>, <<233>>, <<64257>>, <<128512>>, <<97, 128512>>, <<64257, 97>>,
+                <<97, 32>>, <<35>>, <<91>> }
 FamKeysC == {Sc("keys", VObj(<<Mem(p[1], One), Mem(p[2], Two), Mem(p[3], Three)>>), 0, 0, TRUE, FALSE) :
                 p \in KeyTriples(IF Quick THEN KeysQuick3 ELSE Keys)}
 
@@ -156,8 +181,48 @@ CorDocs == { VObj(<<Mem(Ka, VArr(<<One, VStr(<<98, 10>>)>>)), Mem(Kc, VObj(<<>>)
              VStr(<<115>>), VNum(Zero), VObj(<<>>), VArr(<<>>), VFalse }
 FamCor == {Sc("cor", v, 0, 0, FALSE, TRUE) : v \in CorDocs}
 
+\* --- family edge: code points at the boundaries of the escape rules and of UTF-8 / UTF-16 -------------
+\* US | space ! (control boundary), ~ DEL U+0080 (ASCII boundary), U+07FF U+0800 (UTF-8 length), U+2029,
+\* U+D7FF | U+E000 (around the surrogates), U+FFFE U+FFFF | U+10000 (BMP boundary),
+\* surrogate pairs whose halves are at their boundaries: U+10000 = D800 DC00, U+103FF = D800 DFFF, U+10400 = D801 DC00,
+\* U+10FC00 = DBFF DC00, U+10FFFF = DBFF DFFF
+EdgeAlpha == {31, 32, 33, 126, 127, 128, 2047, 2048, 8233, 55295, 57344, 65534, 65535,
+              65536, 66559, 66560, 1113088, 1114111}
+FamEdgeA == {Sc("edge", StrPlace(p, <<c>>), 0, All, FALSE, FALSE) : p \in {"elem", "key"}, c \in EdgeAlpha}
+\* ... next to another character (what follows / precedes an escape must survive)
+FamEdgeB == {Sc("edge", StrPlace("elem", s), 0, All, FALSE, FALSE) :
+                s \in {<<c, d>> : c \in {65536, 66559, 1113088, 1114111, 32}, d \in {97, 92, 65535, 65536}}
+                      \cup {<<d, c>> : c \in {65536, 66559, 1113088, 1114111, 32}, d \in {97, 92, 65535}}}
+
+\* --- family look: strings and keys that look like something else; none of it may have any effect --------
+\* -0  -0.5  1e-05  1.5  1E5  (number spellings inside strings: kept verbatim, and no concern of the enforced variant)
+\* "a b" and " " (whitespace inside a string is significant), { [ : , null and an escaped quote followed by -0
+LookStrs == { <<45, 48>>, <<45, 48, 46, 53>>, <<49, 101, 45, 48, 53>>, <<49, 46, 53>>, <<49, 69, 53>>, <<46>>, <<101>>, <<69>>,
+              <<97, 32, 98>>, <<32>>, <<32, 32>>, <<123>>, <<91, 93>>, <<58>>, <<44>>, <<110, 117, 108, 108>>,
+              <<34, 45, 48>>, <<92, 45, 48>>, <<34, 32, 34>>, <<92, 110>>, <<92, 117, 48, 48, 52, 49>> }
+FamLook == {Sc("look", StrPlace(p, s), 0, 0, FALSE, FALSE) : p \in {"top", "elem", "mval", "key"}, s \in LookStrs}
+
+\* --- family nestkeys: order-sensitive key pairs inside NESTED objects -----------------------------------
+OrderPairs == { <<<<34>>, <<35>>>>, <<<<10>>, <<34>>>>, <<<<92>>, <<93>>>>, <<<<91>>, <<92>>>>, <<<<64257>>, <<128512>>>>,
+                <<Ka, <<97, 32>>>>, <<<<65>>, Ka>>, <<<<0>>, <<31>>>> }
+NestKeysDoc(p) == VObj(<<Mem(Kb, VObj(<<Mem(p[2], One), Mem(p[1], Two)>>)),
+                         Mem(Ka, VArr(<<VObj(<<Mem(p[1], VObj(<<Mem(p[2], VNull), Mem(p[1], VTrue)>>)), Mem(p[2], Three)>>)>>))>>)
+FamNestKeys == {Sc("nestkeys", NestKeysDoc(p), 0, IF Quick THEN 0 ELSE 1, TRUE, FALSE) : p \in OrderPairs}
+
+\* --- family wide: objects with as many members as / more members than the library sorts in place (128) ---
+WideKey(i) == <<97 + (i % 26), 97 + (i \div 26)>>
+WideObj(n) == VObj([i \in 1..n |-> Mem(WideKey(n - i), VNum(<<48 + (i % 10)>>))] \o <<>>)      \* written in descending order
+FamWide == {Sc("wide", WideObj(n), 0, 0, FALSE, FALSE) : n \in (IF Quick THEN {128, 129} ELSE {127, 128, 129, 130, 200})}
+
+\* --- family dup: duplicate keys (outside the statement's "valid": only absence of panics is checked) -----
+FamDup == {Sc("dup", v, 0, 0, TRUE, FALSE) :
+              v \in { VObj(<<Mem(Ka, One), Mem(Ka, Two)>>),
+                      VObj(<<Mem(Kb, One), Mem(Ka, VObj(<<Mem(<<34>>, One), Mem(<<34>>, VNum(<<49, 46, 53>>))>>)), Mem(Kb, VNull)>>) }}
+
 GenInit == \/ InitWith(FamStrA) \/ InitWith(FamStrB)
-           \/ InitWith(FamNumA) \/ InitWith(FamNumB) \/ InitWith(FamNumC)
+           \/ InitWith(FamNumA) \/ InitWith(FamNumB) \/ InitWith(FamNumC) \/ InitWith(FamNumD)
+           \/ InitWith(FamEdgeA) \/ InitWith(FamEdgeB) \/ InitWith(FamLook) \/ InitWith(FamNestKeys)
+           \/ InitWith(FamWide) \/ InitWith(FamDup)
            \/ InitWith(FamKeysA) \/ InitWith(FamKeysB) \/ InitWith(FamKeysC)
            \/ InitWith(FamWs)
            \/ InitWith(FamNestA) \/ InitWith(FamNestB) \/ InitWith(FamNestC) \/ InitWith(FamNestD)
